@@ -39,6 +39,9 @@ def unit_groups(root, tier):
     g["tools"] = (sorted(glob.glob(os.path.join(root, "tools/graph-convert/*.cpp"))) +
                   sorted(glob.glob(os.path.join(root, "tools/graph-remap/*.cpp"))) +
                   sorted(glob.glob(os.path.join(root, "tools/graph-stats/*.cpp"))))
+    for p in g["tools"]:
+        # one group per tool as well: every tool has its own main() and file-local helpers with identical keys
+        g["tool_" + os.path.basename(p)[:-4]] = [p]
     g["disttools"] = sorted(glob.glob(os.path.join(root, "tools/dist-graph-convert/*.cpp")))
     g["distapps"] = sorted(glob.glob(os.path.join(
         root, "lonestar/analytics/distributed/*/*.cpp")))
